@@ -487,6 +487,20 @@ theorem size_derived_limit_loses_dump (enc : List E → Bytes) (dec : Bytes → 
   rw [api_limit_loses_dump enc dec hcodec blocks hfit _ hbig]
 
 example : backendCap 4 = 1024 ∧ backendCap 0 = 1024 ∧ backendCap 1023 = 1024 ∧ backendCap 65536 = 65536 := by decide
+
+/-- `backendCap` is the clamp the source has: the minimum read from `pkg/cache` `Opts.init` by the extractor
+(`if opts.Size < N { opts.Size = N }`, fact `c11MinSize`) is the 1024 used above. Fails `by decide` when the
+source's minimum changes. -/
+theorem backendCap_is_the_source_clamp :
+    Gen.Facts.c11MinSize = some 1024 ∧
+    ∀ n, Gen.Facts.c11MinSize = some n → ∀ size, backendCap size = (if size < n then n else size) := by
+  refine ⟨by decide, ?_⟩
+  intro n hn size
+  have : n = 1024 := by
+    have h : Gen.Facts.c11MinSize = some 1024 := by decide
+    rw [h] at hn; exact (Option.some.inj hn).symm
+  subst this
+  rfl
 example : 4 * 8192 + 4096 < 1024 * 37 := by decide
 
 /-! ### Non-vacuity: two blocks over a toy codec (`enc` = identity on byte lists) -/
